@@ -26,6 +26,9 @@ GOENV = {
     "GOPROXY": "off",
     "GOSUMDB": "off",
     "GOTOOLCHAIN": "local",
+    # A cgo binary (the root engine package pulls in net / os/user) disables the Go runtime's
+    # "all goroutines are asleep - deadlock!" report, which is the hang oracle (DESIGN 4.3).
+    "CGO_ENABLED": "0",
 }
 
 
@@ -108,10 +111,12 @@ def build_runner(work, race=False, instrument=True, pkg="internal/verif/cmd/veri
     ov, modfile, points = harness_overlay(work, instrument=instrument)
     binp = os.path.join(work, out + ("-race" if race else ""))
     cmd = ["go", "build", "-tags", tags, "-overlay", ov, "-modfile", modfile, "-o", binp]
+    env = goenv()
     if race:
         cmd.append("-race")
+        env["CGO_ENABLED"] = "1"  # the race detector needs cgo; race builds rely on the watchdog for hangs
     cmd.append(MODULE + "/" + pkg)
-    run(cmd, cwd=REPO)
+    run(cmd, cwd=REPO, env=env)
     after = repo_status()
     if before != after:
         raise BuildError("build changed /repo working tree:\nbefore:\n%s\nafter:\n%s" % (before, after))
